@@ -13,7 +13,9 @@ CHECKS = {
              "classes connected under circular 8-adjacency, two-run shift equivariance) as invariants; every enumerated "
              "input is replayed through the real C routine (exact label-map equality) and hook-H1 traces of random larger "
              "grids are validated step by step against the same spec, with the declarative clauses evaluated by TLC on the "
-             "recorded outputs.",
+             "recorded outputs. The repository's own partition tests are run under the hooks and every distinct call (floating-point "
+             "25x24 spectra) is validated by WatershedTrace in level mode (flooding exactly, sweeps against SweepRel, result against the "
+             "post-condition); label maps computed from 8-16 concurrent threads must equal the serial ones.",
         note="Trusted: TLC, the hook events (add-only, written by the C routine itself), integer-valued inputs; rounding "
              "ties of the level discretisation are excluded by an exact filter. Bounded: exhaustive only for the listed small "
              "shapes/alphabets; larger grids by recorded traces.",
